@@ -1260,7 +1260,12 @@ class WorkflowConductor(object):
         # Otherwise, add a new task state entry and stage task to be returned in get_next_tasks.
         else:
             self.add_task_state(task_id, route, in_ctx_idxs=task_ctx, prev=task_prev)
-            self.workflow_state.add_staged_task(task_id, route, ctxs=task_ctx, prev=task_prev)
+            self.workflow_state.add_staged_task(
+                task_id,
+                route,
+                ctxs=json_util.deepcopy(task_ctx),
+                prev=json_util.deepcopy(task_prev),
+            )
 
         # Reset terminal status for the task branch which will also be rerun.
         for _, next_task in self.workflow_state.get_task_sequence(task_id, route):
